@@ -50,7 +50,7 @@ func init() {
 			"a request that was presented before under a held key and refused (too early / too late) is not required to be accepted later; it is still subject to at-most-once and to the 31s rule",
 			"no stall faults: all presentations of one group happen at one simulated instant",
 		},
-		ExpectProbes: []string{"c03.accept", "c03.replay-rejected", "c03.replay-presented{gap=60-61s,ts-valid}", "c03.concurrent-group", "c03.concurrent-exactly-one",
+		ExpectProbes: []string{"c03.held-connection", "c03.accept", "c03.replay-rejected", "c03.replay-presented{gap=60-61s,ts-valid}", "c03.concurrent-group", "c03.concurrent-exactly-one",
 			"c03.boundary{|d|=30s,accepted}", "c03.boundary{|d|=31s,rejected}", "c03.band-unjudged", "c03.fresh-after-same-salt-junk", "c03.err.repeated-salt", "c03.err.bad-timestamp",
 			"c03.pool-pruned-before-replay"},
 	})
@@ -251,7 +251,34 @@ func (h *harness) present(group []*request) (outs []outcome, t0, t1 time.Time, o
 		p.sc.Close()
 		p.c.Close()
 	}
-	if len(group) == 1 {
+	if len(group) == 1 && s.GenChance(20) {
+		// A held connection: the server is handed the connection and waits for bytes that arrive
+		// only after the clock has moved on. What counts is the instant the request arrives.
+		hold := util.Pick(s, []time.Duration{time.Second, 29 * time.Second, 30*time.Second + 1, 31 * time.Second, 35 * time.Second, 61 * time.Second, 62 * time.Second, 5 * time.Minute})
+		s.Probe("c03.held-connection")
+		s.Fault("c03.held-connection")
+		r, p := group[0], pairs[0]
+		var wg sync.WaitGroup
+		wg.Add(1)
+		s.Go("present-held", func() {
+			defer wg.Done()
+			req, err := h.srv.HandleStream(p.sc, util.Logger())
+			outs[0] = outcome{req: r, ok: err == nil, err: err}
+			if err == nil {
+				h.checkAccepted(r, req)
+			}
+		})
+		s.Sleep(hold)
+		t0 = time.Now()
+		if _, err := p.c.Write(r.wire); err != nil {
+			s.HarnessError("write request: %v", err)
+			return nil, t0, t1, false
+		}
+		p.c.CloseWrite()
+		wg.Wait()
+		p.sc.Close()
+		p.c.Close()
+	} else if len(group) == 1 {
 		one(0)
 	} else {
 		var wg sync.WaitGroup
